@@ -76,7 +76,7 @@ def gen_invalid(rng, cfg):
         junk = rng.choice(["bogus", "pad2", "x"]) if what != "segment_key" else rng.choice(["bogus", "x", "stream_device_transfer_length", "block_device_logical_block_address", "fixed", "pad"] + (["fco"] if ver == 4 else []))
         if what == "segment_key_b2s":
             junk = rng.choice(["dc", "fco", "source_block_device_logical_block_address", "bogus"])
-        return {"op": "invalid", "kind": "xcopy", "ver": ver, "what": what, "junk": junk,
+        return {"op": "invalid", "kind": "xcopy", "ver": ver, "what": what, "junk": junk, "falsy": rng.choice([None, None, "zero", "false", "empty", "name"]),
                 "code": rng.choice([0x10, 0x7F, 0xDF, 0xFF, 0x55]), "nvalid": rng.randrange(3)}
     op = {"op": "invalid", "kind": "transport_id", "what": rng.choice(["sid_no_format", "format_no_sid"]),
           "sa": rng.choice([0, 7]), "pos": rng.randrange(2)}
@@ -161,8 +161,12 @@ def xcopy_kwargs(op):
         segs[-1] = b2s
     elif w == "target_code":
         targets[-1]["descriptor_type_code"] = op["code"] if op["code"] not in range(0xE0, 0xEB) else 0x10
+        if op.get("falsy") is not None:
+            targets[-1]["descriptor_type_code"] = {"zero": 0, "false": False, "empty": "", "name": "No such descriptor"}[op["falsy"]]
     elif w == "segment_code":
         segs[-1]["descriptor_type_code"] = op["code"] if op["code"] > 0x20 else 0xFF
+        if op.get("falsy") in ("empty", "name"):
+            segs[-1]["descriptor_type_code"] = {"empty": "", "name": "No such descriptor"}[op["falsy"]]
     elif w == "device_type":
         targets[-1]["peripheral_device_type"] = 0x1E
     elif w == "lu_id_type":
